@@ -3,13 +3,16 @@
 package sched
 
 import (
+	"bytes"
 	"encoding/json"
 	"fmt"
 	"os"
+	"os/exec"
 	"runtime"
 	"sort"
 	"strings"
 	"sync/atomic"
+	"syscall"
 	"testing"
 	"time"
 )
@@ -83,6 +86,96 @@ type Scenario struct {
 	Custom func(env Env) *Report
 	// ReplayCustom re-runs one recorded custom case; returns the failures seen.
 	ReplayCustom func(input json.RawMessage) []Failure
+	// Child runs one case inside an isolated child process (cases that may kill the process:
+	// stack overflow, memory exhaustion); it returns "" or a failure signature.
+	Child func(input json.RawMessage) string
+}
+
+// IsolatedResult is what a child process run produced.
+type IsolatedResult struct {
+	Sig      string // "" = fine
+	Detail   string
+	MaxRSSKB int64
+}
+
+// RunIsolated executes scenario scn's Child function on input in a fresh process of the same test
+// binary, with a wall-clock limit. A crash, fatal error or kill of the child is reported as a
+// failure signature instead of taking the worker down.
+func RunIsolated(scn string, input interface{}, limit time.Duration, memLimitMB int) IsolatedResult {
+	b, _ := json.Marshal(input)
+	cmd := exec.Command(os.Args[0], "-test.run", "^TestVerif$", "-test.count", "1")
+	cmd.Env = append(os.Environ(), "VERIF_CHILD="+scn, "VERIF_CHILD_INPUT="+string(b), fmt.Sprintf("VERIF_CHILD_MEM_MB=%d", memLimitMB), "GOMEMLIMIT=off", "VERIF_OUT=", "VERIF_SCENARIO=", "VERIF_REPLAY=")
+	var out bytes.Buffer
+	cmd.Stdout, cmd.Stderr = &out, &out
+	if err := cmd.Start(); err != nil {
+		return IsolatedResult{Sig: "harness-child-start-failed", Detail: err.Error()}
+	}
+	done := make(chan error, 1)
+	go func() { done <- cmd.Wait() }()
+	var err error
+	timedOut := false
+	select {
+	case err = <-done:
+	case <-time.After(limit):
+		cmd.Process.Kill()
+		err = <-done
+		timedOut = true
+	}
+	res := IsolatedResult{}
+	if ru, ok := cmd.ProcessState.SysUsage().(*syscall.Rusage); ok && ru != nil {
+		res.MaxRSSKB = ru.Maxrss
+	}
+	text := out.String()
+	if i := strings.Index(text, "CHILD-RESULT:"); i >= 0 && err == nil {
+		line := text[i+len("CHILD-RESULT:"):]
+		if j := strings.Index(line, "\n"); j >= 0 {
+			line = line[:j]
+		}
+		res.Sig = strings.TrimSpace(line)
+		return res
+	}
+	switch {
+	case timedOut:
+		res.Sig = "process-hung"
+	case strings.Contains(text, "stack overflow") || strings.Contains(text, "stack exceeds"):
+		res.Sig = "process-died: stack overflow"
+	case strings.Contains(text, "CHILD-MEMORY-LIMIT") || strings.Contains(text, "out of memory") || strings.Contains(text, "cannot allocate"):
+		res.Sig = "process-died: memory exhaustion"
+	case strings.Contains(text, "panic:"):
+		res.Sig = "process-died: panic"
+	default:
+		res.Sig = "process-died"
+	}
+	if len(text) > 1500 {
+		text = text[:1500]
+	}
+	res.Detail = fmt.Sprintf("%v\n%s", err, text)
+	return res
+}
+
+func runChild(t *testing.T) {
+	name := os.Getenv("VERIF_CHILD")
+	s := scenarios[name]
+	if s == nil || s.Child == nil {
+		t.Fatalf("no child function for %q", name)
+	}
+	limitMB := int64(0)
+	fmt.Sscan(os.Getenv("VERIF_CHILD_MEM_MB"), &limitMB)
+	if limitMB > 0 {
+		go func() {
+			var ms runtime.MemStats
+			for {
+				time.Sleep(20 * time.Millisecond)
+				runtime.ReadMemStats(&ms)
+				if int64(ms.Sys>>20) > limitMB {
+					fmt.Printf("CHILD-MEMORY-LIMIT: %d MiB obtained from the OS (limit %d)\n", ms.Sys>>20, limitMB)
+					os.Exit(7)
+				}
+			}
+		}()
+	}
+	sig := s.Child(json.RawMessage(os.Getenv("VERIF_CHILD_INPUT")))
+	fmt.Printf("CHILD-RESULT:%s\n", sig)
 }
 
 var scenarios = map[string]*Scenario{}
@@ -103,6 +196,11 @@ func CustomViolation(scn, sig, detail string, input interface{}) Violation {
 
 // Main is the body of TestVerif in every harness package.
 func Main(t *testing.T) {
+	if os.Getenv("VERIF_CHILD") != "" {
+		runtime.GOMAXPROCS(2)
+		runChild(t)
+		return
+	}
 	env := ReadEnv()
 	if env.Scenario == "" && env.Replay == "" {
 		t.Skip("VERIF_SCENARIO not set")
